@@ -1092,6 +1092,8 @@ pub fn run_case(case: &CrashCase, wroot: &Path, c02: bool, stats: &mut Stats) ->
     // ---- sweep (or one pinned image of the sweep)
     let mut tr = tracker_for(&run, &start_tags);
     let total = run.log.len();
+    let evals_at_start = ctx.stats.get("evaluations");
+    let has_long_docs = case.sessions.iter().flat_map(|s| s.ops.iter()).any(|o| matches!(o, Op::Add { ver, .. } if crate::work::is_big(*ver)));
     for pos in 0..=total {
       if pos > 0 {
         tr.apply(&run.log[pos - 1]);
@@ -1111,6 +1113,24 @@ pub fn run_case(case: &CrashCase, wroot: &Path, c02: bool, stats: &mut Stats) ->
           continue;
         }
         ctx.stats.inc("probe.sweep_sampled_boundaries");
+      }
+      // a deterministic work cap per case (heavy cases: bursts, long documents)
+      let cap: u64 = match (case.samples > 2, c02) {
+        (true, _) => 400_000,
+        (false, true) => 5_000,
+        (false, false) => 25_000,
+      } / if has_long_docs { 4 } else { 1 };
+      if case.pin.is_none() {
+        let spent = ctx.stats.get("evaluations") - evals_at_start;
+        // over the cap: only the in-flight tail (the last 120 boundaries) is
+        // still swept, itself bounded by three times the cap
+        if spent > 3 * cap {
+          ctx.stats.inc("probe.sweep_cut_by_work_cap");
+          break;
+        }
+        if spent > cap && pos + 120 < total {
+          continue;
+        }
       }
       let b = boundary_at(&run, pos);
       let choices: Vec<Choice> = match &case.pin {
